@@ -294,7 +294,11 @@ func init() {
 			// collision groups inside maps whose root is an index slab (a removal can make a leaf GROW and split): every
 			// transition also with a commit placed before the operation, then commit and recovery
 			specs = append(specs, collMetaSpecs(r, []string{"crash", "coldop"})...)
-			specs = append(specs, coldClosureSpecs(r)...)
+			for _, sp := range coldClosureSpecs(r) {
+				if sp.Kind != "arr-small" { // (the two array closures are the costly ones; C08, a light check, runs all five)
+					specs = append(specs, sp)
+				}
+			}
 			// small trees, cold (every slab clean): shrinking overwrites and removals that borrow from / merge with a clean sibling
 			for _, sc := range []string{"map-grow-lim", "map-grow-desc", "arr-append-lim", "arr-mixed"} {
 				specs = append(specs, TrajSpecs(r.ID, sc, 20, 4, 17, 3, 2, 256, []string{"t", "limM"}, []string{"crash", "ev:commit1"})...)
